@@ -50,6 +50,9 @@ Proof.
   replace (S (4*k))%nat with (4*k+1)%nat by lia. replace (S (4*k+1))%nat with (4*k+2)%nat by lia.
   replace (S (4*k+2))%nat with (4*k+3)%nat by lia. ring.
 Qed.
+Lemma sumR_4z k f : sumR (4 * k) f
+  = sumR k (fun l => f (4*l+0)%nat + f (4*l+1)%nat + f (4*l+2)%nat + f (4*l+3)%nat).
+Proof. rewrite sumR_4. apply sumR_ext. intros. now rewrite Nat.add_0_r. Qed.
 Lemma sumR_2 k f : sumR (2 * k) f = sumR k (fun l => f (2*l)%nat + f (2*l+1)%nat).
 Proof.
   induction k; [reflexivity|].
@@ -70,6 +73,17 @@ Proof.
   rewrite (sumR_ext n (fun k => f (n + (n + (n + k)))%nat) (fun k => f (3*n + k)%nat)) by (intros; f_equal; lia).
   ring.
 Qed.
+Lemma sumR_4blocksz n f : sumR (4 * n) f
+  = sumR n (fun k => f (0*n + k)%nat + f (1*n + k)%nat + f (2*n + k)%nat + f (3*n + k)%nat).
+Proof. rewrite sumR_4blocks, !sumR_add.
+  rewrite (sumR_ext n (fun k => f (0*n + k)%nat) f) by (intros; f_equal; lia).
+  rewrite (sumR_ext n (fun k => f (1*n + k)%nat) (fun k => f (n + k)%nat)) by (intros; f_equal; lia).
+  reflexivity. Qed.
+Lemma sumR_2blocksz n f : sumR (2 * n) f = sumR n (fun k => f (0*n + k)%nat + f (1*n + k)%nat).
+Proof. replace (2 * n)%nat with (n + n)%nat by lia. rewrite sumR_app, sumR_add.
+  rewrite (sumR_ext n (fun k => f (0*n + k)%nat) f) by (intros; f_equal; lia).
+  rewrite (sumR_ext n (fun k => f (1*n + k)%nat) (fun k => f (n + k)%nat)) by (intros; f_equal; lia).
+  reflexivity. Qed.
 End Sums.
 Arguments sumR {C} n f.
 
